@@ -615,7 +615,7 @@ func (w *World) randValue() string {
 	case 0:
 		return "0x" + randHex(r, 64)
 	case 1:
-		return "0X" + randHex(r, 64)
+		return pick(r, "0X", "0X", "0x0x", "0X0x") + randHex(r, 64)
 	case 2:
 		return randHex(r, 63)
 	case 3:
